@@ -20,6 +20,7 @@ pub fn exec_op(op: &str) -> String {
         suites::combiner::exec(&args).or_else(|| suites::header::exec(&args))
             .or_else(|| suites::events::exec(&args))
             .or_else(|| suites::time::exec(&args))
+            .or_else(|| suites::framer::exec(&args))
     });
     match res {
         Ok(Some(s)) => s,
@@ -79,6 +80,8 @@ fn main() {
         "header" => suites::header::run(&ctx),
         "events" => suites::events::run(&ctx),
         "time" => suites::time::run(&ctx),
+        "framer" => suites::framer::run(&ctx),
+        "framerseq" => suites::framer::run_seq(&ctx),
         "expand" => {
             // stdin: requests whose hashes disagreed; output: the individual requests they stand for
             use std::io::BufRead;
